@@ -871,6 +871,12 @@ func groupInvalid() {
 	raw("X", prim("int64"), `frugal:"2,default,E1"`)
 	raw("X", prim("float64"), `frugal:"2,default,float"`)
 	raw("X", prim("int32"), `frugal:"2,default,list<i32>"`)
+	// a slice of a defined uint8 type is not []byte: not binary, and uint8 is not a Thrift element type
+	raw("X", list(named("uint8", "NB")), `frugal:"2,default,binary"`)
+	raw("X", list(named("uint8", "NB")), `frugal:"2,default"`)
+	raw("X", list(named("uint8", "NB")), `frugal:"2,default,list<byte>"`)
+	raw("X", mapOf(prim("int32"), list(named("uint8", "NB"))), `frugal:"2,default,map<i32:binary>"`)
+	raw("X", list(list(named("uint8", "NB"))), `frugal:"2,default,list<binary>"`)
 	// broken syntax
 	for _, a := range []string{"list<i32", "list i32>", "list<>", "<i32>", "lst<i32>", "list<i32,>", "set<", "list"} {
 		raw("X", list(prim("int32")), `frugal:"2,default,`+a+`"`)
